@@ -270,6 +270,10 @@ func (c *Ctx) App(f *FuncDecl, args ...*Term) *Term {
 		panic(fmt.Sprintf("arity mismatch for %s: %d vs %d", f.Name, len(args), len(f.Params)))
 	}
 	for i, a := range args {
+		if f.Params[i].Kind == SInt && a.Op == "bvlit" {
+			args[i] = c.litToInt(a)
+			a = args[i]
+		}
 		if a.Sort != f.Params[i] {
 			panic(fmt.Sprintf("sort mismatch for %s arg %d: %s vs %s", f.Name, i, a.Sort, f.Params[i]))
 		}
@@ -454,6 +458,7 @@ func (c *Ctx) Ite(cond, a, b *Term) *Term {
 	if a == b {
 		return a
 	}
+	a, b = c.coerceIdx(a, b)
 	if a.Sort != b.Sort {
 		panic(fmt.Sprintf("ite sort mismatch %s vs %s", a.Sort, b.Sort))
 	}
@@ -491,6 +496,7 @@ func (c *Ctx) Eq(a, b *Term) *Term {
 	if a == b {
 		return c.True()
 	}
+	a, b = c.coerceIdx(a, b)
 	if a.Sort != b.Sort {
 		panic(fmt.Sprintf("eq sort mismatch %s vs %s (%s, %s)", a.Sort, b.Sort, c.Show(a), c.Show(b)))
 	}
@@ -534,6 +540,19 @@ func signed(v *big.Int, w int) *big.Int {
 }
 
 func (c *Ctx) BVBin(op string, a, b *Term) *Term {
+	a, b = c.coerceIdx(a, b)
+	if a.Sort.Kind == SInt && b.Sort.Kind == SInt {
+		// index arithmetic in math-int mode
+		switch op {
+		case "bvadd":
+			return c.IntBin("+", a, b)
+		case "bvsub":
+			return c.IntBin("-", a, b)
+		case "bvmul":
+			return c.IntBin("*", a, b)
+		}
+		panic("bit-vector operator " + op + " on mathematical integers")
+	}
 	if a.Sort != b.Sort || a.Sort.Kind != SBV {
 		panic(fmt.Sprintf("%s sort mismatch %s vs %s", op, a.Sort, b.Sort))
 	}
@@ -664,6 +683,28 @@ func (c *Ctx) BVBin(op string, a, b *Term) *Term {
 }
 
 func (c *Ctx) BVCmp(op string, a, b *Term) *Term {
+	a, b = c.coerceIdx(a, b)
+	if a.Sort.Kind == SInt && b.Sort.Kind == SInt {
+		switch op {
+		case "bvslt":
+			return c.IntCmp("<", a, b)
+		case "bvsle":
+			return c.IntCmp("<=", a, b)
+		case "bvsgt":
+			return c.IntCmp(">", a, b)
+		case "bvsge":
+			return c.IntCmp(">=", a, b)
+		// unsigned comparisons are used for "0 <= a && a op b" on indices
+		case "bvult":
+			return c.And(c.IntCmp(">=", a, c.IntLit(0)), c.IntCmp("<", a, b))
+		case "bvule":
+			return c.And(c.IntCmp(">=", a, c.IntLit(0)), c.IntCmp("<=", a, b))
+		case "bvugt":
+			return c.And(c.IntCmp(">=", b, c.IntLit(0)), c.IntCmp(">", a, b))
+		case "bvuge":
+			return c.And(c.IntCmp(">=", b, c.IntLit(0)), c.IntCmp(">=", a, b))
+		}
+	}
 	if a.Sort != b.Sort || a.Sort.Kind != SBV {
 		panic(fmt.Sprintf("%s sort mismatch %s vs %s", op, a.Sort, b.Sort))
 	}
@@ -776,7 +817,66 @@ func (c *Ctx) IntBin(op string, a, b *Term) *Term {
 		}
 		return c.intern(&Term{Op: "intlit", Val: r, Sort: IntSort})
 	}
+	zero := func(t *Term) bool { return t.IsLit() && t.Val.Sign() == 0 }
+	one := func(t *Term) bool { return t.IsLit() && t.Val.Cmp(big.NewInt(1)) == 0 }
+	switch op {
+	case "+":
+		if zero(a) {
+			return b
+		}
+		if zero(b) {
+			return a
+		}
+		if a.IsLit() {
+			a, b = b, a
+		}
+		// (x + c1) + c2 -> x + (c1+c2)
+		if b.IsLit() && a.Op == "+" && a.Args[1].IsLit() {
+			return c.IntBin("+", a.Args[0], c.intern(&Term{Op: "intlit", Val: new(big.Int).Add(a.Args[1].Val, b.Val), Sort: IntSort}))
+		}
+	case "-":
+		if zero(b) {
+			return a
+		}
+		if a == b {
+			return c.IntLit(0)
+		}
+		if b.IsLit() {
+			return c.IntBin("+", a, c.intern(&Term{Op: "intlit", Val: new(big.Int).Neg(b.Val), Sort: IntSort}))
+		}
+		// (x + c) - x -> c
+		if a.Op == "+" && a.Args[0] == b {
+			return a.Args[1]
+		}
+	case "*":
+		if one(a) {
+			return b
+		}
+		if one(b) {
+			return a
+		}
+		if zero(a) || zero(b) {
+			return c.IntLit(0)
+		}
+	}
 	return c.mk(op, IntSort, a, b)
+}
+
+// litToInt converts a bit-vector literal to the Int literal of its signed value.
+func (c *Ctx) litToInt(t *Term) *Term {
+	return c.intern(&Term{Op: "intlit", Val: signed(t.Val, t.Sort.W), Sort: IntSort})
+}
+
+// coerceIdx lets index arithmetic written with 64-bit literals work when the
+// other operand is a mathematical integer (math-int mode).
+func (c *Ctx) coerceIdx(a, b *Term) (*Term, *Term) {
+	if a.Sort.Kind == SInt && b.Sort.Kind == SBV && b.Op == "bvlit" {
+		return a, c.litToInt(b)
+	}
+	if b.Sort.Kind == SInt && a.Sort.Kind == SBV && a.Op == "bvlit" {
+		return c.litToInt(a), b
+	}
+	return a, b
 }
 
 func (c *Ctx) IntCmp(op string, a, b *Term) *Term {
@@ -804,6 +904,9 @@ func (c *Ctx) IntCmp(op string, a, b *Term) *Term {
 func (c *Ctx) Select(a, i *Term) *Term {
 	if a.Sort.Kind != SArray {
 		panic("select on non-array " + a.Sort.String())
+	}
+	if a.Sort.Idx.Kind == SInt && i.Op == "bvlit" {
+		i = c.litToInt(i)
 	}
 	if i.Sort != a.Sort.Idx {
 		panic(fmt.Sprintf("select index sort %s vs %s", i.Sort, a.Sort.Idx))
@@ -839,8 +942,8 @@ func (c *Ctx) definitelyDistinct(i, j *Term) bool {
 	if i.IsLit() && j.IsLit() {
 		return i.Val.Cmp(j.Val) != 0
 	}
-	// x + c1 vs x + c2 (bit-vectors), x vs x + c
-	if i.Sort.Kind == SBV {
+	// x + c1 vs x + c2, x vs x + c
+	if i.Sort.Kind == SBV || i.Sort.Kind == SInt {
 		bi, ci := splitOffset(i)
 		bj, cj := splitOffset(j)
 		if bi == bj && ci.Cmp(cj) != 0 {
@@ -851,6 +954,9 @@ func (c *Ctx) definitelyDistinct(i, j *Term) bool {
 }
 
 func splitOffset(t *Term) (*Term, *big.Int) {
+	if t.Op == "+" && t.Args[1].IsLit() {
+		return t.Args[0], t.Args[1].Val
+	}
 	if t.Op == "bvadd" && t.Args[1].IsLit() {
 		return t.Args[0], t.Args[1].Val
 	}
@@ -861,6 +967,12 @@ func splitOffset(t *Term) (*Term, *big.Int) {
 }
 
 func (c *Ctx) Store(a, i, v *Term) *Term {
+	if a.Sort.Kind == SArray && a.Sort.Idx.Kind == SInt && i.Op == "bvlit" {
+		i = c.litToInt(i)
+	}
+	if a.Sort.Kind == SArray && a.Sort.Elem.Kind == SInt && v.Op == "bvlit" {
+		v = c.litToInt(v)
+	}
 	if a.Sort.Kind != SArray || i.Sort != a.Sort.Idx || v.Sort != a.Sort.Elem {
 		panic(fmt.Sprintf("store sort mismatch: %s [%s] := %s", a.Sort, i.Sort, v.Sort))
 	}
@@ -1259,6 +1371,12 @@ func (p *printer) render(t *Term, sub func(*Term) string) string {
 		return fmt.Sprintf("((_ sign_extend %s) %s)", t.Name, sub(t.Args[0]))
 	case "constarr":
 		return fmt.Sprintf("((as const %s) %s)", t.Sort, sub(t.Args[0]))
+	case "int2bv":
+		return fmt.Sprintf("((_ int2bv %s) %s)", t.Name, sub(t.Args[0]))
+	case "sbv2int":
+		a := sub(t.Args[0])
+		w := t.Args[0].Sort.W
+		return fmt.Sprintf("(ite (bvslt %s %s) (- (bv2nat %s) %s) (bv2nat %s))", a, p.render(p.c.BVI(0, w), sub), a, pow2(uint(w)).String(), a)
 	case "forall", "exists":
 		vs := make([]string, len(t.Vars))
 		for i, v := range t.Vars {
